@@ -47,6 +47,7 @@ import (
 	rpcclient "github.com/tendermint/tendermint/rpc/client"
 	rpccore "github.com/tendermint/tendermint/rpc/core"
 	ctypes "github.com/tendermint/tendermint/rpc/core/types"
+	rpctypes "github.com/tendermint/tendermint/rpc/jsonrpc/types"
 
 	"verif/ref"
 	"verif/verdict"
@@ -670,7 +671,7 @@ func (cc *chainCtx) serverSide(c *verdict.Ctx) {
 		n := len(cc.truth[h].Block.Data.Txs)
 		for _, order := range []string{"asc", "desc"} {
 			per := 100
-			res, err := rpccore.TxSearch(rctx, fmt.Sprintf("tx.height=%d", h), true, nil, &per, order)
+			res, err := safeTxSearch(c, cc, rctx, fmt.Sprintf("tx.height=%d", h), true, nil, &per, order)
 			if err != nil {
 				c.Violation("server-txsearch-fails", "rpc/core TxSearch failed: "+err.Error(), map[string]interface{}{"stream": "server", "chain": cc.spec, "height": h})
 				continue
@@ -687,7 +688,7 @@ func (cc *chainCtx) serverSide(c *verdict.Ctx) {
 	for _, k := range cc.keys {
 		per, page := 7, 1
 		for {
-			res, err := rpccore.TxSearch(rctx, fmt.Sprintf("app.key='%s'", k), true, &page, &per, "asc")
+			res, err := safeTxSearch(c, cc, rctx, fmt.Sprintf("app.key='%s'", k), true, &page, &per, "asc")
 			if err != nil {
 				break
 			}
@@ -795,4 +796,17 @@ func (cc *chainCtx) maxVals() int {
 		}
 	}
 	return m
+}
+
+// safeTxSearch calls the real rpc/core TxSearch; a panic inside the handler is
+// a finding about the server (the JSON-RPC layer would turn it into an error
+// for a query that has an answer), not a reason for the harness to die.
+func safeTxSearch(c *verdict.Ctx, cc *chainCtx, rctx *rpctypes.Context, q string, prove bool, page, per *int, order string) (res *ctypes.ResultTxSearch, err error) {
+	defer func() {
+		if r := recover(); r != nil {
+			c.Violation("server-txsearch-panics", fmt.Sprintf("rpc/core TxSearch panicked on query %q: %v", q, r), map[string]interface{}{"stream": "server", "chain": cc.spec, "query": q})
+			res, err = nil, fmt.Errorf("panic: %v", r)
+		}
+	}()
+	return rpccore.TxSearch(rctx, q, prove, page, per, order)
 }
